@@ -1023,6 +1023,8 @@ func (e *endpoint) connect(addr tcpip.FullAddress, handshake bool, run bool) (er
 		// The endpoint is bound to a port, attempt to register it.
 		err := e.stack.RegisterTransportEndpoint(nicid, netProtos, ProtocolNumber, e.id, e)
 		if err != nil {
+			// 注册失败,端点还是原来绑定的那个(否则之后释放端口时用的是被改过的地址)
+			e.id = origID
 			return err
 		}
 	} else {
@@ -1054,6 +1056,7 @@ func (e *endpoint) connect(addr tcpip.FullAddress, handshake bool, run bool) (er
 				return false, err
 			}
 		}); err != nil {
+			e.id = origID
 			return err
 		}
 	}
